@@ -181,6 +181,10 @@ class SymEnv:
             self.ctx.solver.add(_b(c.exact if isinstance(c, Cond) else c))
         return v
 
+    def nonfinite_guards(self):
+        """Conditions under which the executed code stored a NaN/inf (see core.ite); must be proved unreachable or assumed away"""
+        return [SB(g) for g, v in self.ctx.nonfinite]
+
     def raised(self, exname=None):
         """Symbolic condition under which a declared exception was raised at merge points so far"""
         cs = [rc for (_, en, rc) in self.ctx.raise_conds if exname is None or en == exname]
@@ -286,6 +290,9 @@ class ConcEnv:
 
     def cut(self, value, name, guarantees=()):
         return value
+
+    def nonfinite_guards(self):
+        return []
 
     def raised(self, exname=None):
         return False
